@@ -312,4 +312,51 @@ def normalisation (solve : List (List α) → List α → Option (List α)) (fit
 
 end Normalise
 
+/-! ### the whole of `selNSGA3` after the sort (lines 537-573), and `selNSGA3WithMemory.__call__` -/
+
+section Full
+variable {α : Type} [RealLike α]
+
+/-- `selNSGA3` with its own normalisation and association: `fitOf id` is the minimised objective
+vector (`-wvalues`, line 541-542) of individual `id`; the objective matrix is taken in the order of
+the flattened fronts; `niches, dist` are what `associate_to_niche` returns for the model's own
+`best_point, intercepts`. -/
+def selNSGA3Full (solve : List (List α) → List α → Option (List α)) (fronts : List (List Nat))
+    (k : Nat) (fitOf : Nat → List α) (refs : List (List α)) (mb mw : Option (List α))
+    (me : Option (List (List α))) (tape : Tape) : Except Err (List Nat) :=
+  let fits := fronts.flatten.map fitOf
+  let n := normalisation solve fits mb mw me
+  let a := associate fits refs n.1 n.2.2.2
+  selNSGA3 fronts k (a.map (·.1)) (a.map (·.2)) (RealLike.ofNat 0) refs.length tape
+
+/-- the attributes `best_point, worst_point, extreme_points` of a `selNSGA3WithMemory` object.
+`none` for the points stands for the rows of `+inf` / `-inf` written by `__init__` (neutral for the
+componentwise min / max), `none` for the extreme points is Python's `None`. -/
+structure Mem (α : Type) where
+  best : Option (List α)
+  worst : Option (List α)
+  extreme : Option (List (List α))
+
+def Mem.init : Mem α := ⟨none, none, none⟩
+
+/-- `selNSGA3WithMemory.__call__` (lines 483-489): select with the remembered points, then remember
+the new ones (an exception leaves the attributes as they were). -/
+def memCall (solve : List (List α) → List α → Option (List α)) (refs : List (List α))
+    (st : Mem α) (fronts : List (List Nat)) (k : Nat) (fitOf : Nat → List α) (tape : Tape) :
+    Except Err (List Nat) × Mem α :=
+  let n := normalisation solve (fronts.flatten.map fitOf) st.best st.worst st.extreme
+  match selNSGA3Full solve fronts k fitOf refs st.best st.worst st.extreme tape with
+  | .error e => (.error e, st)
+  | .ok chosen => (.ok chosen, ⟨some n.1, some n.2.1, some n.2.2.1⟩)
+
+/-- the memory after a sequence of successful calls, each given by its objective matrix (the
+selections themselves do not influence the memory). -/
+def memAfter (solve : List (List α) → List α → Option (List α)) : Mem α → List (List (List α)) → Mem α
+  | st, [] => st
+  | st, fits :: rest =>
+    let n := normalisation solve fits st.best st.worst st.extreme
+    memAfter solve ⟨some n.1, some n.2.1, some n.2.2.1⟩ rest
+
+end Full
+
 end Nsga3
